@@ -123,8 +123,13 @@ class EFLRItem:
     def _compute_copy_number(self) -> int:
         """Compute copy number of this ELFRItem, i.e. how many other objects of the same type and name there are."""
 
-        items_with_the_same_name = filter(lambda o: o.name == self.name, self.parent.get_all_eflr_items())
-        return len(list(items_with_the_same_name)) - 1
+        # an object is identified by the type of its set, its origin, copy number, and name, so the objects of all
+        # sets of the same type in the logical file (also differently named ones) are taken into account
+        sets_structure = getattr(self.parent, 'registered_in', None)
+        eflr_sets = sets_structure[type(self.parent)].values() if sets_structure is not None else [self.parent]
+
+        items_with_the_same_name = [o for s in eflr_sets for o in s.get_all_eflr_items() if o.name == self.name]
+        return len(items_with_the_same_name) - 1
 
     @classmethod
     def _check_parent(cls, parent: "EFLRSet") -> None:
